@@ -354,8 +354,10 @@ def oracle_covered(a, msg):
         if k.startswith("new/") and "bigpad" in a["kinds"]:
             if m(counterfactual(r"<!--c{1000,}-->")[k]) == m(ref):
                 return "c09-tail-chunk-boundary"
-        if k == "new/lxml" and ("pi_text" in a["kinds"] or "comment_text" in a["kinds"]):
-            if m(counterfactual(r"<\?t x\?>|<!--t-->")[k]) == m(ref):
+        if k == "new/lxml" and ("pi_text" in a["kinds"] or ("comment_text" in a["kinds"] and a["xinclude"])):
+            # the listed defect: PIs inside text always, comments inside text only on the process_xinclude path
+            trigger = r"<\?t x\?>|<!--t-->" if a["xinclude"] else r"<\?t x\?>"
+            if m(counterfactual(trigger)[k]) == m(ref):
                 return "c09-lxml-text-after-pi"
         if k == "new/native" and a["xinclude"]:
             # with process_xinclude the native handler walks an ElementTree and invents the prefixes:
